@@ -61,9 +61,12 @@ func (c03) Run(c *Case, st *Stats) []Violation {
 			add(c.Entity, kind, regime, desc+detail, r.Decisions)
 			return vs
 		}
+		if r.NbrBad != "" {
+			add(c.Entity, "neighbour-pipeline-disturbed", regime, desc+r.NbrBad, r.Decisions)
+		}
 		// canonical schedule: FIFO, unbuffered inputs
 		d := *c
-		d.Cap, d.Policy, d.Record = 0, simrt.PolicySpec{Name: "fifo"}, false
+		d.Cap, d.Policy, d.Record, d.Late, d.Nbr = 0, simrt.PolicySpec{Name: "fifo"}, false, false, false
 		r0, _ := runInd(&d, d.pipeOpts())
 		st.noteSim(&r0.SimOut)
 		if ok0, _, _ := termination(&r0.SimOut, r0.Closed, r0.ProdDone, r0.Built); ok0 && r0.Err == nil {
@@ -97,8 +100,11 @@ func (c03) Run(c *Case, st *Stats) []Violation {
 			add(name, kind, regime, desc+detail, r.Decisions)
 			return vs
 		}
+		if r.NbrBad != "" {
+			add(name, "neighbour-pipeline-disturbed", regime, desc+r.NbrBad, r.Decisions)
+		}
 		d := *c
-		d.Cap, d.Policy, d.Record = 0, simrt.PolicySpec{Name: "fifo"}, false
+		d.Cap, d.Policy, d.Record, d.Late, d.Nbr = 0, simrt.PolicySpec{Name: "fifo"}, false, false, false
 		r0 := runStrat(&d, d.pipeOpts())
 		st.noteSim(&r0.SimOut)
 		if ok0, _, _ := termination(&r0.SimOut, r0.Closed, r0.ProdDone, r0.Built); ok0 && r0.Err == nil {
